@@ -14,7 +14,7 @@ The exporter model `Rpft/Export.lean` is tied to the real `to_rows` on every gen
 C17 check; the reading `edgesOfS` is tied to the real flow's edge list by the C04 check
 (driver op `export.graph`).
 -/
-import Rpft.Lemmas.ExportGraphTop
+import Rpft.Lemmas.ExportGraphSorted
 set_option linter.unusedSimpArgs false
 set_option linter.unusedVariables false
 namespace Rpft.Props.C04
@@ -207,5 +207,218 @@ theorem export_drops_dangling_exits (f : FlowX U) (rows : List (RowT U)) (h : to
   simp only at heq
   subst heq
   exact hno d hd
+
+/-! ### (b) ORDER: in which order does a router get its cases back?
+
+The compiler appends the cases of the router that ends in row `s` in the order `outOf s (edgesOf sheet)`
+(rows top to bottom, cells left to right).  `_to_rows_recurse` walks the exits of a node in REVERSE and
+puts each edge either on a row that is inserted at the FRONT of the sheet (a new node's block; a `go_to`
+row) or at the front of the edge list of the first row of an already completed node — wherever that row
+stands.  Hence: -/
+
+/-- (b) **edges into the same row keep their exit order** — always.  For every reachable node `n` and
+every row `t`: the edges from `n` into `t` appear in the sheet in the order of the exits.  (With
+`out_edges_perm`: the sheet order of the exits of `n` is their exit order, stably re-sorted by the
+position of the row that carries each edge.) -/
+theorem out_edges_same_target_order (f : FlowX U) (rows : List (RowT U)) (h : toRowsT f = .ok rows) (n : NodeX U)
+    (hn : Reach f n) (t : TempId U) :
+    (outOf (lastId n) (edgesOfT rows)).filter (fun e => decide (e.dst = t)) =
+      (exitsEdges f n).filter (fun e => decide (e.dst = t)) := by
+  obtain ⟨n0, items, vis, sk⟩ := export_skeleton f rows h hn.ne_nil
+  rw [outOf_filter_eq_sel]
+  exact sk.sel_eq sk.run hn _ (doneOk_dst f DTrue _ t)
+
+/-- (b) **order preserved, criterion 1** (covers cycles, self loops, any number of `go_to` rows): if in
+the exported sheet no edge that leaves `n` was PREPENDED to an existing row — every edge cell that names
+the last row of `n` is the LAST edge cell of its row, i.e. each target of `n` was reached from `n`
+first — then the sheet lists the exits of `n` exactly in exit order. -/
+theorem out_edges_order_of_not_prepended (f : FlowX U) (rows : List (RowT U)) (h : toRowsT f = .ok rows) (n : NodeX U)
+    (hn : Reach f n) (hlast : ∀ r ∈ rows, ∀ e ∈ r.edges.dropLast, e.from_ ≠ some (lastId n)) :
+    outOf (lastId n) (edgesOfT rows) = exitsEdges f n := by
+  obtain ⟨n0, items, vis, sk⟩ := export_skeleton f rows h hn.ne_nil
+  have hp : ∀ e, Prepended items e → e.from_ ≠ some (lastId n) := by
+    rintro e ⟨m, es, hm, he⟩
+    have hrow : ∃ r ∈ rows, r.edges = es := by
+      rw [sk.rows_eq]
+      have hne := (sk.inv.canonB m es hm).2
+      cases hrw : m.rows with
+      | nil => exact absurd hrw hne
+      | cons x rest =>
+        obtain ⟨p, o⟩ := x
+        refine ⟨{ id := rowId m 0, nodeId := some m.uuid, objId := o, payload := p, edges := es, goto := [] }, ?_, rfl⟩
+        simp only [renderAll, List.mem_flatMap]
+        exact ⟨_, hm, by simp [Item.render, blockRows, hrw]⟩
+    obtain ⟨r, hr, hre⟩ := hrow
+    exact hlast r hr e (hre ▸ he)
+  have r' := run_noPrepended f (lastId n) sk.run (fun _ _ hm => nomatch hm) hp
+  have := sk.sel_eq r' hn (fun _ => true) (doneOk_ne f _ _)
+  rw [← outOf_eq_sel] at this
+  rw [this]
+  exact List.filter_eq_self.2 (fun _ _ => rfl)
+
+/-- (b) … in particular on a sheet WITHOUT JOINS (no row has more than one edge cell: a tree with back
+edges) every node's exit order is preserved. -/
+theorem out_edges_order_of_join_free (f : FlowX U) (rows : List (RowT U)) (h : toRowsT f = .ok rows)
+    (hjf : ∀ r ∈ rows, r.edges.length ≤ 1) (n : NodeX U) (hn : Reach f n) :
+    outOf (lastId n) (edgesOfT rows) = exitsEdges f n := by
+  apply out_edges_order_of_not_prepended f rows h n hn
+  intro r hr e he
+  have := hjf r hr
+  have hl : r.edges.dropLast.length = 0 := by simp; omega
+  rw [List.length_eq_zero_iff.1 hl] at he
+  cases he
+
+/-- (b) **order preserved, criterion 2 — exact** (finding F-C04-b is its negation).  For a reachable
+node `n` none of whose edges is carried by a `go_to` row (no exit of `n` leads back to `n` or to an
+ancestor): the sheet lists the exits of `n` in exit order IF AND ONLY IF the targets of the exits appear
+in the sheet in the order of the exits — no exit's target is exported LATER (further down) than the
+target of a following exit. -/
+theorem out_edges_order_iff_targets_sorted (f : FlowX U) (rows : List (RowT U)) (h : toRowsT f = .ok rows) (n : NodeX U)
+    (hn : Reach f n) (hg : ∀ r ∈ rows, r.goto ≠ [] → ∀ e ∈ r.edges, e.from_ ≠ some (lastId n)) :
+    outOf (lastId n) (edgesOfT rows) = exitsEdges f n ↔
+      (exitsEdges f n).Pairwise (fun a b => pos (rows.map (·.id)) a.dst ≤ pos (rows.map (·.id)) b.dst) := by
+  have hnd := toRowsT_ids_nodup f rows h
+  have hsorted := outOf_sorted (lastId n) rows hnd hg
+  constructor
+  · intro heq
+    rw [← heq]; exact hsorted
+  · intro hX
+    apply eq_of_sorted_filters (fun e : SEdge (TempId U) => e.dst) (pos (rows.map (·.id))) _ _ hsorted hX
+    · intro a ha b hb hab
+      have hmem : ∀ e ∈ exitsEdges f n, e.dst ∈ rows.map (·.id) := by
+        intro e he
+        obtain ⟨lab, d, c, hd, hc, rfl⟩ := mem_loopEdges he
+        obtain ⟨c', hc', _, hin, _⟩ := exit_target_exported f rows h n hn lab d hd
+        rw [hc] at hc'
+        cases hc'
+        exact hin
+      exact pos_inj (hmem a ha) (hmem b hb) hab
+    · intro t
+      exact out_edges_same_target_order f rows h n hn t
+
+/-! ### (d) errors -/
+
+/-- (d) the exporter accepts a flow IF AND ONLY IF every reachable node has at least one row model and
+every exit of a reachable node that names a destination names a node of the flow -/
+theorem export_ok_iff (f : FlowX U) :
+    (∃ rows, toRowsT f = .ok rows) ↔
+      ∀ m, Reach f m → m.rows ≠ [] ∧ ∀ lab d, (lab, some d) ∈ m.edges → findNode f d ≠ none := by
+  constructor
+  · rintro ⟨rows, h⟩ m hm
+    obtain ⟨n0, items, vis, sk⟩ := export_skeleton f rows h hm.ne_nil
+    have hmem := (sk.reach m).2 hm
+    obtain ⟨es, hes⟩ := mem_blockNodes.1 hmem
+    refine ⟨(sk.inv.canonB m es hes).2, ?_⟩
+    intro lab d hd
+    obtain ⟨c, hc, _⟩ := sk.closed m hmem lab d hd
+    simp [hc]
+  · intro hall
+    cases hr : toRowsT f with
+    | ok rows => exact ⟨rows, rfl⟩
+    | error x =>
+      exfalso
+      have hdef := toRowsT_error f x hr
+      cases x with
+      | fuel => exact toRowsT_no_fuel f hr
+      | noRows => obtain ⟨m, hm, hrows⟩ := hdef; exact (hall m hm).1 hrows
+      | noNode => obtain ⟨m, lab, d, hm, hd, hf⟩ := hdef; exact (hall m hm).2 lab d hd hf
+      | keyError => exact hdef
+      | counterFuel => exact hdef
+
+/-- (d) what each error value proves: `noNode` (`find_node` raises ValueError) — a reachable exit names a
+uuid that is no node of the flow; `noRows` (IndexError) — a reachable node has no row model; no other
+error value occurs -/
+theorem export_error_cases (f : FlowX U) (x : Err) (h : toRowsT f = .error x) :
+    (x = .noNode ∧ ∃ m lab d, Reach f m ∧ (lab, some d) ∈ m.edges ∧ findNode f d = none) ∨
+    (x = .noRows ∧ ∃ m, Reach f m ∧ m.rows = []) := by
+  have hdef := toRowsT_error f x h
+  cases x with
+  | fuel => exact absurd h (toRowsT_no_fuel f)
+  | noRows => exact Or.inr ⟨rfl, hdef⟩
+  | noNode => exact Or.inl ⟨rfl, hdef⟩
+  | keyError => exact hdef.elim
+  | counterFuel => exact hdef.elim
+
+/-- (d) when every reachable node has a row model: the export fails with `noNode` IF AND ONLY IF some
+reachable exit names a uuid that is no node of the flow -/
+theorem export_noNode_iff (f : FlowX U) (hrows : ∀ m, Reach f m → m.rows ≠ []) :
+    toRowsT f = .error .noNode ↔ ∃ m lab d, Reach f m ∧ (lab, some d) ∈ m.edges ∧ findNode f d = none := by
+  constructor
+  · intro h
+    rcases export_error_cases f _ h with ⟨_, h1⟩ | ⟨h1, _⟩
+    · exact h1
+    · cases h1
+  · rintro ⟨m, lab, d, hm, hd, hf⟩
+    cases hr : toRowsT f with
+    | ok rows => exact absurd hf (((export_ok_iff f).1 ⟨rows, hr⟩ m hm).2 lab d hd)
+    | error x =>
+      rcases export_error_cases f x hr with ⟨h1, _⟩ | ⟨_, m', hm', hr'⟩
+      · rw [h1]
+      · exact absurd hr' (hrows m' hm')
+
+/-- (d) … and symmetrically for `noRows` -/
+theorem export_noRows_iff (f : FlowX U)
+    (hnodes : ∀ m, Reach f m → ∀ lab d, (lab, some d) ∈ m.edges → findNode f d ≠ none) :
+    toRowsT f = .error .noRows ↔ ∃ m, Reach f m ∧ m.rows = [] := by
+  constructor
+  · intro h
+    rcases export_error_cases f _ h with ⟨h1, _⟩ | ⟨_, h1⟩
+    · cases h1
+    · exact h1
+  · rintro ⟨m, hm, hr0⟩
+    cases hr : toRowsT f with
+    | ok rows => exact absurd hr0 (((export_ok_iff f).1 ⟨rows, hr⟩ m hm).1)
+    | error x =>
+      rcases export_error_cases f x hr with ⟨_, m', lab, d, hm', hd, hf⟩ | ⟨h1, _⟩
+      · exact absurd hf (hnodes m' hm' lab d hd)
+      · rw [h1]
+
+/-- (d) the id remapping adds no failure: `to_rows(numbered)` fails exactly when the DFS fails, with
+the same error (in particular `KeyError` never happens: every id a row mentions is the id of a row) -/
+theorem stripped_error_iff (numbered : Bool) (f : FlowX U) (x : Err) :
+    strippedRows numbered f = .error x ↔ toRowsT f = .error x := by
+  cases hr : toRowsT f with
+  | error y => simp [strippedRows, hr]
+  | ok rows =>
+    obtain ⟨out, ho, _⟩ := strippedRows_ok numbered f rows hr
+    simp [ho]
+
+/-! ### the final sheet (readable or numbered ids) -/
+
+/-- **The graph of the FINAL sheet.**  In both id modes the rows `to_rows` returns are the temp-id rows
+with every id replaced by `σ`, where `σ` is injective on the row ids and never `"start"`; every id a row
+mentions is the id of a row.  Hence the graph the compiler reads from the final sheet (`edgesOfS`) is the
+renamed graph of the temp-id sheet, the node rows keep their content, and the edges leaving a row keep
+their order: every statement above holds for the final sheet, read through `σ`. -/
+theorem export_preserves_graph_stripped (numbered : Bool) (f : FlowX U) (out : List RowS)
+    (h : strippedRows numbered f = .ok out) :
+    ∃ (rows : List (RowT U)) (σ : TempId U → Str), toRowsT f = .ok rows ∧ out = rows.map (renameRow σ) ∧
+      (∀ a ∈ rows.map (·.id), σ a ≠ startStr) ∧
+      (∀ a ∈ rows.map (·.id), ∀ b ∈ rows.map (·.id), σ a = σ b → a = b) ∧
+      (∀ r ∈ rows, RowRefs (rows.map (·.id)) r) ∧
+      edgesOfS out = (edgesOfT rows).map (SEdge.map σ) ∧
+      nodeRowsS out = (nodeRowsT rows).map (fun x => (σ x.1, x.2.2.2)) ∧
+      (∀ s ∈ rows.map (·.id), outOf (σ s) (edgesOfS out) = (outOf s (edgesOfT rows)).map (SEdge.map σ)) := by
+  cases hr : toRowsT f with
+  | error y => simp [strippedRows, hr] at h
+  | ok rows =>
+    have hre : remap numbered rows = .ok out := by simpa [strippedRows, hr] using h
+    have hnd := toRowsT_ids_nodup f rows hr
+    obtain ⟨σ, ho, hrefs, hst, hinj⟩ := remap_spec numbered rows out hnd hre
+    have hne : ∀ r ∈ rows, ∀ e ∈ r.edges, ∀ k, e.from_ = some k → σ k ≠ startStr :=
+      fun r hr' e he k hk => hst k ((hrefs r hr').2.1 e he k hk)
+    have hE : edgesOfS out = (edgesOfT rows).map (SEdge.map σ) := ho ▸ edgesOfS_rename σ rows hne
+    refine ⟨rows, σ, rfl, ho, hst, hinj, hrefs, hE, ho ▸ nodeRowsS_rename σ rows, ?_⟩
+    intro s hs
+    rw [hE]
+    apply outOf_map_of_inj σ (rows.map (·.id)) _ s hs _ hinj
+    intro e he k hk
+    by_cases hne' : f = []
+    · subst hne'
+      simp only [toRowsT, Except.ok.injEq] at hr
+      subst hr
+      simp [edgesOfT] at he
+    · obtain ⟨n0, items, vis, sk⟩ := export_skeleton f rows hr hne'
+      exact sk.src_mem (sk.edges ▸ he) k hk
 
 end Rpft.Props.C04
